@@ -175,7 +175,7 @@ theorem mate_labels (h : mate P pop xc nmating nprogeny nself xo pc fc draws = .
     refine ⟨i, by simp; omega, ?_⟩
     simp [Np.arange, Nat.add_comm]
   · intro hsmall
-    rw [hrows, groupTaxa, Np.stableSort_sorted _ _ (genRows_sorted P prog pc _ hlen hsorted (by omega)),
+    rw [hrows, groupTaxa_sorted _ (genRows_sorted P prog pc _ hlen hsorted (by omega)),
       hmn, hcnt]
 
 /-- the per-row provenance statement (needs the generator contract `0 ≤ draw`) -/
@@ -216,42 +216,5 @@ theorem mate_rows (h : mate P pop xc nmating nprogeny nself xo pc fc draws = .ok
   simp [hkx]
 
 end facts
-
-/-! ### the decidable Spec holds of every output of the model -/
-
-section spec
-variable [Preorder ρ] [DecidableLT ρ] [Zero ρ] [BEq α] [LawfulBEq α]
-variable {P : Proto} {pop : Pop α} {xc : List (List Nat)} {nmating nprogeny : Cnt} {nself : Nat}
-    {xo : List ρ} {pc fc : Nat} {draws : List (DrawMat ρ)} {out : Out α}
-
-theorem rowOK_of {r : Row α} (h : fc ≤ r.grp ∧ ∃ cross, xc[r.grp - fc]? = some cross ∧
-      Mosaic (sources P nself pop cross).1 xo r.ind.1 ∧ Mosaic (sources P nself pop cross).2 xo r.ind.2 ∧
-      (P.isDH = true → r.ind.1 = r.ind.2)) :
-    rowOK P nself pop xc xo fc r = true := by
-  obtain ⟨h1, cross, hc, m1, m2, hd⟩ := h
-  simp only [rowOK, hc, Bool.and_eq_true, decide_eq_true_eq, Bool.or_eq_true, Bool.not_eq_true',
-    beq_iff_eq]
-  refine ⟨h1, ⟨(mosaicCheck_iff _ _ _).mpr m1, (mosaicCheck_iff _ _ _).mpr m2⟩, ?_⟩
-  cases hP : P.isDH
-  · exact Or.inl rfl
-  · exact Or.inr (hd hP)
-
-theorem spec_of_mate (h : mate P pop xc nmating nprogeny nself xo pc fc draws = .ok out) (hnn : Nonneg draws) :
-    (specMate P pop xc nmating nprogeny nself xo pc fc out).1 = true := by
-  obtain ⟨nm, np, hnm, hnp, hfacts⟩ := mate_labels h
-  simp only at hfacts
-  obtain ⟨hcount, hgrp, hpc, hfc, hperm, hmem, hsmall⟩ := hfacts
-  have hrows := mate_rows h hnn
-  simp only [specMate, hnm, hnp, Np.sum_eq_list_sum, Bool.and_eq_true, beq_iff_eq, List.all_eq_true]
-  refine ⟨⟨⟨⟨hcount, hgrp⟩, ?_⟩, ⟨hpc, hfc⟩⟩, fun r hr => rowOK_of (hrows r hr)⟩
-  unfold namesOK
-  split
-  · rename_i hle
-    simp only [beq_iff_eq]
-    exact hsmall hle
-  · simp only [Bool.and_eq_true, List.all_eq_true, List.contains_iff_mem, List.isPerm_iff]
-    exact ⟨hmem, hperm⟩
-
-end spec
 
 end Mating
